@@ -103,7 +103,7 @@ func (f *fixture) open() error {
 	var mopt, copt res.Option
 	switch f.cfg.Pkg {
 	case "middleware":
-		m := middleware.BadgerDB{DB: db}
+		m := middleware.BadgerDB{}.WithDB(db)
 		c := middleware.BadgerDB{DB: db}
 		if f.cfg.Typed {
 			m = m.WithType(T{})
@@ -118,8 +118,8 @@ func (f *fixture) open() error {
 		}
 		mopt, copt = m, c
 	default:
-		m := resbadger.Model{BadgerDB: resbadger.BadgerDB{DB: db}}
-		c := resbadger.Collection{BadgerDB: resbadger.BadgerDB{DB: db}}
+		m := resbadger.BadgerDB{}.WithDB(db).Model()
+		c := resbadger.BadgerDB{DB: db}.Collection()
 		if f.cfg.Typed {
 			m = m.WithType(T{})
 		}
